@@ -28,7 +28,7 @@ def run_one(m):
                 return m, "STALE", "pattern occurs %d times in %s (expected %d)" % (n, e["file"], e.get("count", 1))
             s = s.replace(e["old"], e["new"])
             open(p, "w").write(s)
-        env = dict(os.environ, VERIF_REPO=d, VERIF_SELFTEST="1")
+        env = dict(os.environ, VERIF_REPO=d, VERIF_SELFTEST="1", VERIF_EVIDENCE_DIR=os.path.join(d, ".ev"))
         out = ""
         verdicts = []
         for prop in m["props"]:
